@@ -107,7 +107,9 @@ type Engine struct {
 	combs    map[*types.Var]*combSummary // func-typed parameter -> how often the function calls it
 	busy     map[*Func]bool
 	MaxPth   int
-	Trunc    []string       // functions whose path enumeration was truncated
+	Trunc    []string // functions whose path enumeration was truncated
+	Shallow  []string // functions enumerated without looking into their helpers (over budget otherwise)
+	noLook   bool
 	inl      map[*Func]bool // helpers being inlined (recursion guard)
 	inlDepth map[*Func]int  // how often each of them is on the look-in stack
 	hcount   map[*Func]int  // cached path counts of helper candidates
@@ -259,7 +261,17 @@ func (e *Engine) Paths(fn *Func) []Path {
 	}
 	e.busy[fn] = true
 	defer delete(e.busy, fn)
+	nt := len(e.Trunc)
 	ps := e.enumerate(fn, 0)
+	if len(e.Trunc) > nt && !e.noLook && len(e.busy) == 1 {
+		// over budget with helpers looked into: enumerate the function's own paths, its helpers as calls (their
+		// effects are then seen through summaries, as for any function that is not looked into)
+		e.Trunc = e.Trunc[:nt]
+		e.noLook = true
+		ps = e.enumerate(fn, 0)
+		e.noLook = false
+		e.Shallow = append(e.Shallow, fn.Name)
+	}
 	e.cache[fn] = ps
 	return ps
 }
@@ -1387,7 +1399,7 @@ func hasFuncParam(def *Func) bool {
 // function arrived as a value bound to a parameter of a looked-into helper).
 func (c *fnCtx) inlineHelperX(callee types.Object, call *ast.CallExpr, anyPkg bool) alts {
 	f, ok := callee.(*types.Func)
-	if !ok || !c.e.P.isGlue(f) || c.depth >= 6 || len(c.paths) > 400 || c.branchy() {
+	if !ok || c.e.noLook || !c.e.P.isGlue(f) || c.depth >= 6 || len(c.paths) > 400 || c.branchy() {
 		return nil // (path-heavy numeric code is not expanded further)
 	}
 	def := c.e.P.Funcs[f]
